@@ -242,7 +242,11 @@ def plan(tier, rng, sl, nslices, stats):
         yield {"rules": [list(r) for r in rand_rules(rng)], "seed": rng.randrange(1 << 30)}
     for _ in range(cfg["products"]):
         fa = gfa.random_case(rng, max_states=2, max_syms=2, kinds=("dfa", "enfa"), vcs=["int", "str"])
-        yield {"rules": [list(r) for r in rand_rules(rng, max_n=3)][:5], "seed": rng.randrange(1 << 30), "fa": fa}
+        rules = [list(r) for r in rand_rules(rng, max_n=3)][:5]
+        dups = [r for r in rules if r[0] == "dup"]
+        for r in dups[1:]:
+            rules.remove(r)              # the library's marking is exponential in duplication rules on products
+        yield {"rules": rules, "seed": rng.randrange(1 << 30), "fa": fa}
     if cfg.get("exhaustive"):
         tot = 0
         for i, rules in enumerate(small_exhaustive()):
